@@ -126,6 +126,8 @@ fn main() {
             }
             let mut v = out.finish();
             v["harness_panics"] = serde_json::json!(harness_panics);
+            io::reset(io::Sched::Whole, io::Sched::Whole, None);
+            v["max_io_calls_in_a_scenario"] = io::MAX_SERVED.load(std::sync::atomic::Ordering::Relaxed).into();
             println!("{}", v);
         }
         "tree" => {
